@@ -157,6 +157,14 @@ class DocWorld(D.World):
                 res = e; ans = 'err ' + D.err_name(e)
             self.say('style %d' % self.valtok(ncname(op[1])), ans)
             self.last_result = res
+        elif k == 'cache':
+            try:
+                if op[1] == 'clear': doc.clear_caches()
+                else: doc.rebuild_caches()
+                ans = 'ok'
+            except Exception as e:
+                ans = 'err ' + D.err_name(e)
+            self.say(op[1], ans)
         elif k == 'render':
             try:
                 if op[1] == 'xml': doc.xml()
@@ -240,6 +248,7 @@ class Oracle(object):
         self.failed = None
         self.renamed = False       # a registered style was renamed earlier in this history
         self.dupnames = False      # two attached styles bore the same name at some point
+        self.cleared = False       # doc.clear_caches() was called and no doc.rebuild_caches() since: the index may lag
 
     def fail(self, sig, idx, detail):
         if self.failed is None:
@@ -264,6 +273,14 @@ class Oracle(object):
     def check_bytype(self, idx, fname, res):
         q = qname_of_factory(fname)
         want = [e for e in attached_elements(self.w.doc) if e.qname == q]
+        if self.cleared:
+            # after the public clear_caches() the index is legitimately incomplete until rebuild_caches(): what it
+            # answers must still be attached elements of that type, each once
+            ok = len(set(id(e) for e in res)) == len(res) and all(any(e is x for x in want) for e in res)
+            if not ok:
+                self.fail('index-bytype-after-clear', idx, 'doc.getElementsByType(%s) = %s, attached in the tree: %s'
+                          % (fname, [self.w.nid(e) for e in res], [self.w.nid(e) for e in want]))
+            return
         if multiset(res) != multiset(want):
             w = self.w
             self.fail('index-bytype', idx, 'doc.getElementsByType(%s) = %s, attached in the tree: %s'
@@ -282,6 +299,8 @@ class Oracle(object):
         w = self.w
         if isinstance(res, Exception):
             self.fail('style-lookup-raises', idx, 'getStyleByName(%r) raised %r' % (name, res)); return
+        if self.cleared and res is None:
+            return
         if not want and res is not None:
             self.fail(self.style_sig(), idx, 'getStyleByName(%r) = node %s (name %r, %s), but no attached style has that name'
                       % (name, w.nid(res), res.attributes.get((D.STYLENS, u'name')),
@@ -311,6 +330,9 @@ class History(object):
             if e.qname == QSTYLE and attached_to(e, w.doc.topnode) and e.parentNode.qname in REG_PARENTS:
                 orc.renamed = True
         legal = self.legal(op)
+        if op[0] == 'cache':
+            orc.cleared = (op[1] == 'clear')
+            if op[1] == 'clear': battery = False          # let the next edit meet the emptied index
         ans = w.do(op)
         if legal and not ans.startswith('ok'):
             orc.fail('legal-edit-refused', idx, '%s answered %s' % (op, ans))
@@ -352,7 +374,7 @@ class History(object):
         if op[0] == 'rm':
             p = w.nodes[op[1]]
             return p.nodeType == 1 and any(k is w.nodes[op[2]] for k in p.childNodes)
-        return op[0] in ('new', 'render', 'load', 'bytype', 'elbytype', 'style', 'setns')
+        return op[0] in ('new', 'render', 'load', 'bytype', 'elbytype', 'style', 'setns', 'cache')
 
     # ---- generation
     def prologue(self):
@@ -381,7 +403,7 @@ class History(object):
         r = self.rng; w = self.w
         for _ in range(40):
             k = r.choice(['append'] * 4 + ['insb'] * 4 + ['rm'] * 4 + ['adde'] * 2 + ['addstyle'] * 3 + ['attach'] * 3 + ['container'] * 3 +
-                         ['addt', 'addc', 'rename', 'render', 'query', 'query', 'load', 'rmbad', 'textparent'])
+                         ['addt', 'addc', 'rename', 'render', 'query', 'query', 'load', 'rmbad', 'textparent', 'cache'])
             P = self.parents(); M = self.movable()
             if k == 'addstyle':
                 S = [i for i in M if w.nodes[i].nodeType == 1 and w.nodes[i].qname == QSTYLE]
@@ -437,6 +459,8 @@ class History(object):
             if k == 'rename':
                 S = [i for i in M if w.nodes[i].nodeType == 1 and w.nodes[i].qname == QSTYLE]
                 if S and r.random() < 0.5: return ['setns', r.choice(S), D.STYLENS, u'name', r.choice([u'A', u'B', u'C'])]
+            if k == 'cache':
+                return ['cache', r.choice(['clear', 'clear', 'rebuild'])]
             if k == 'render':
                 return ['render', r.choice(['xml', 'metaxml', 'save']), w.fresh(), w.fresh()]
             if k == 'query':
@@ -763,6 +787,9 @@ def targeted_histories():
         # a text:a and a text:title in the document, then the namesake factories draw.A / dc.Title are asked
         [['append', 12, 26], ['append', 12, 27], ['append', 11, 12], ['bytype', 'A'], ['bytype', 'DrawA'], ['bytype', 'TextTitle'],
          ['bytype', 'DcTitle'], ['elbytype', 12, 'DrawA'], ['elbytype', 12, 'A'], ['rm', 12, 26], ['bytype', 'DrawA'], ['bytype', 'A']],
+        # the public cache methods: edits and lookups on an emptied index, then a rebuild
+        [['append', 11, 12], ['append', 12, 14], ['cache', 'clear'], ['rm', 12, 14], ['append', 11, 13], ['cache', 'clear'],
+         ['append', 13, 14], ['insb', 11, 13, 12], ['cache', 'rebuild'], ['rm', 11, 12], ['append', 7, 22], ['cache', 'clear'], ['rm', 7, 22]],
         # a renamed style removed, another style of its old name added
         [['append', 7, 22], ['setns', 22, NS, u'name', u'B'], ['append', 8, 23]] + look + [['rm', 7, 22], ['append', 8, 24]] + look,
     ]
